@@ -834,6 +834,13 @@ class Scope:
         # Context manager for the subscope associated with a loop.
         yield
 
+    @contextlib.contextmanager
+    def finally_scope(self) -> Iterator[list[SubScope]]:
+        yield []
+
+    def leave_loop(self, scope: SubScope) -> None:
+        pass
+
     def combine_subscopes(
         self, scopes: Iterable[SubScope], *, ignore_leaves_scope: bool = False
     ) -> None:
@@ -1279,6 +1286,22 @@ class FunctionScope(Scope):
                 for scope in loop_scopes
             ]
         )
+
+    @contextlib.contextmanager
+    def finally_scope(self) -> Iterator[list[SubScope]]:
+        """Collects the subscopes that leave the enclosing loop inside a try statement.
+
+        A break or continue inside a try statement runs the finally clause on its way
+        out, so the caller visits the clause for each of these subscopes and hands the
+        result to the loop with :meth:`leave_loop`.
+
+        """
+        leaving_scopes = []
+        with qcore.override(self, "current_loop_scopes", leaving_scopes):
+            yield leaving_scopes
+
+    def leave_loop(self, scope: SubScope) -> None:
+        self.current_loop_scopes.append(scope)
 
     def get_combined_scope(
         self, scopes: Iterable[SubScope], *, ignore_leaves_scope: bool = False
